@@ -423,8 +423,10 @@ class Interp:
                 lo = self.ev(e.slice.lower, env, mod, func, depth) if e.slice.lower is not None else None
                 hi = self.ev(e.slice.upper, env, mod, func, depth) if e.slice.upper is not None else None
                 stp = self.ev(e.slice.step, env, mod, func, depth) if e.slice.step is not None else None
-                if not isinstance(o, (list, tuple, str)):
+                if not isinstance(o, (list, tuple, str, range)):
                     raise Unknown('slice of a non sequence')
+                if any(isinstance(x, Sym) for x in (lo, hi, stp)):
+                    raise Unknown('slice bound is opaque')
                 r = o[slice(lo, hi, stp)]
                 return TList(r) if isinstance(r, list) else r
             i = self.ev(e.slice, env, mod, func, depth)
@@ -595,6 +597,20 @@ class Interp:
                 if fn.attr == 'count' and len(args) == 1:
                     return o.count(args[0])
                 raise Unknown(f'list method {fn.attr}')
+            if isinstance(o, dict):
+                if fn.attr == 'get' and 1 <= len(args) <= 2 and not kwargs:
+                    try:
+                        return o.get(args[0], args[1] if len(args) == 2 else None)
+                    except TypeError:
+                        raise Unknown('dict key')
+                if fn.attr in ('keys', 'values', 'items') and not args:
+                    return TList(getattr(o, fn.attr)())
+                raise Unknown(f'dict method {fn.attr}')
+            if isinstance(o, tuple) and fn.attr in ('index', 'count') and len(args) == 1:
+                try:
+                    return getattr(o, fn.attr)(args[0])
+                except ValueError:
+                    raise Raised('ValueError', e)
             if isinstance(o, Obj) and o.cls is not None:
                 m = self.prog.resolve_method(o.cls, fn.attr)
                 if m is not None:
@@ -615,7 +631,9 @@ class Interp:
                 stub = getattr(self, 'ext_stubs', {}).get(f'{o.name}.{fn.attr}')
                 if stub is not None:
                     return stub(args, kwargs)
-                return derived_call(f'{o.name}.{fn.attr}', args, kwargs)
+                r = derived_call(f'{o.name}.{fn.attr}', args, kwargs)
+                r.recv, r.method = o, fn.attr
+                return r
             raise Unknown(f'method call `{norm(fn)[:40]}`')
         v = self.ev(fn, env, mod, func, depth)
         if isinstance(v, EnumClass) and len(args) == 1 and isinstance(args[0], int):
